@@ -85,6 +85,7 @@ type c06State struct {
 	refs  map[string]map[int]*c06Ref // config name -> doc index -> fresh output
 	long  map[string]goldmark.Markdown
 	specs []cfg.Spec
+	arena srcArena // the recycled read buffer of "convert-recycled" operations
 }
 
 func (s *c06State) ref(spec cfg.Spec, di int) *c06Ref {
@@ -195,7 +196,12 @@ func (s *c06State) runHistory(spec cfg.Spec, md goldmark.Markdown, ops []c06Op) 
 		}
 		hist := ops[:i+1]
 		switch o.Op {
-		case "convert":
+		case "convert", "convert-recycled":
+			if o.Op == "convert-recycled" {
+				// the caller reads every document into the same buffer: the bytes of the previous document are gone
+				src = s.arena.load(src)
+				c.Count("op_convert_from_recycled_buffer", 1)
+			}
 			c.Begin(spec.Name(), src)
 			res := convert(md, src)
 			c.End()
@@ -368,8 +374,10 @@ func runC06(c *core.Ctx) {
 				di = r.Intn(nfixed)
 			}
 			switch r.Intn(7) {
-			case 0, 1, 2:
+			case 0, 1:
 				ops[i] = c06Op{Op: "convert", Doc: di}
+			case 2:
+				ops[i] = c06Op{Op: "convert-recycled", Doc: di}
 			case 3:
 				ops[i] = c06Op{Op: "parse", Doc: di}
 			case 6:
